@@ -380,8 +380,9 @@ inline void limitsGrowAfter(Ctx& C) {
           other.clear();
           on = 0;
         }
-        size_t oreach = fillTo(other, on, on + 3 * CAP);
-        if (op != 6 && op != 7 && oreach != on + 3 * CAP) problems += "the other document cannot grow after the operation; ";
+        size_t otarget = std::min(on + 3 * CAP, LIMIT - 1);
+        size_t oreach = fillTo(other, on, otarget);
+        if (op != 6 && op != 7 && oreach != otarget) problems += "the other document cannot grow after the operation; ";
         problems += A.takeErrors() + B.takeErrors();
       }
       if (!A.live.empty() || !B.live.empty()) problems += "blocks live after destruction; ";
